@@ -89,17 +89,18 @@ Fixpoint prop_steps (pre : list kstep) (l : list hstep) : bool :=
     end && prop_steps (pre ++ [s]) r
   end.
 
-Definition check_hist (f1 f2 f4 : bool) (c : hcase) : verdict :=
+Definition check_hist (f1 f2 f4 f6 : bool) (c : hcase) : verdict :=
   let steps := map h_step (hc_steps c) in
-  {| v_corr := list_eqb obs_eqb (map obs_of (run_history f1 f2 f4 steps)) (map h_obs (hc_steps c));
+  {| v_corr := list_eqb obs_eqb (map obs_of (run_history f1 f2 f4 f6 steps)) (map h_obs (hc_steps c));
      v_prop := prop_steps [] (hc_steps c);
      v_guards := guards [(1%Z, existsb (fun s => guard_F1 (s_cred s)) steps && negb f1);
                          (2%Z, existsb (fun s => guard_F2 (s_cred s)) steps && negb f2);
                          (3%Z, existsb (fun s => guard_F3 (s_cred s)) steps && f1);
                          (4%Z, guard_F4 f1 f2 steps && negb f4);
-                         (5%Z, false)] |}.
+                         (5%Z, false);
+                         (6%Z, guard_F6 f1 f2 steps && negb f6)] |}.
 
-Definition hs cf con ttl tpl env now cred o attrs :=
-  {| h_step := {| s_cf := cf; s_cache_on := con; s_ttl := ttl; s_templated := tpl; s_env := env; s_now := secs now; s_cred := cred |};
+Definition hs cf con ttl tpl tplurl env now cred o attrs :=
+  {| h_step := {| s_cf := cf; s_cache_on := con; s_ttl := ttl; s_templated := tpl; s_tpl_url := tplurl; s_env := env; s_now := secs now; s_cred := cred |};
      h_obs := o; h_attrs := attrs |}.
 Definition hc steps := {| hc_steps := steps |}.
